@@ -19,36 +19,13 @@ open OW OW.Fn OW.Proofs.FindRoot OW.Proofs.Piecewise
 section FindRoot
 variable {f : ℝ → ℝ} {f' : Option (ℝ → ℝ)} {x0 lo hi tol conv : ℝ} {n : Nat}
 
-/-- Without a bracketed root the Go code panics ("Invalid range"); with one it runs the iteration loop. -/
-theorem findRoot_eq (h1 : f lo ≤ 0) (h2 : 0 ≤ f hi) :
-    findRoot f f' x0 lo hi tol conv n =
-      .ok (iterate f f' tol conv n x0 (f x0) ⟨lo, f lo, hi, f hi⟩ [lo, hi, x0] []) := by
-  unfold findRoot
-  simp only [RealNum.ofNat_eq, Nat.cast_zero]
-  rw [if_neg (by rintro (h | h) <;> linarith)]
-
+/-- **invalid range.** Without a bracketed root (`f lo > 0` or `f hi < 0`) the Go code panics ("Invalid range") — it never
+returns a number. With one it runs the iteration loop (`findRoot_eq`). -/
 theorem findRoot_invalid_range (h : 0 < f lo ∨ f hi < 0) :
     findRoot f f' x0 lo hi tol conv n = .error "other" := by
   unfold findRoot
   simp only [RealNum.ofNat_eq, Nat.cast_zero]
   rw [if_pos h]
-
-theorem init_binv (hle : lo ≤ hi) (h1 : f lo ≤ 0) (h2 : 0 ≤ f hi) : BInv f lo hi ⟨lo, f lo, hi, f hi⟩ :=
-  ⟨hle, le_refl _, le_refl _, rfl, rfl, h1, h2⟩
-
-theorem init_evals (hle : lo ≤ hi) (hx0 : lo ≤ x0 ∧ x0 ≤ hi) : EvalsIn lo hi [lo, hi, x0] := by
-  intro e he
-  simp only [List.mem_cons, List.not_mem_nil, or_false] at he
-  rcases he with rfl | rfl | rfl
-  · exact ⟨le_refl _, hle⟩
-  · exact ⟨hle, le_refl _⟩
-  · exact hx0
-
-theorem post (hle : lo ≤ hi) (h1 : f lo ≤ 0) (h2 : 0 ≤ f hi) (hx0 : lo ≤ x0 ∧ x0 ≤ hi) {r : Res ℝ}
-    (hr : findRoot f f' x0 lo hi tol conv n = .ok r) : Post f lo hi tol r := by
-  rw [findRoot_eq h1 h2] at hr
-  cases hr
-  exact iterate_post _ _ _ _ _ _ _ (init_binv hle h1 h2) rfl hx0 (init_evals hle hx0) rfl
 
 /-- **bracket_inv.** On every exit, after any number of iterations, the bracket `[min, max]` held by the loop satisfies
 `min ≤ max`, lies inside the initial interval, `f min ≤ 0 ≤ f max`, and the stored deltas are the function values at
@@ -257,12 +234,6 @@ example : ∃ r, findRoot (fun x : ℝ => x - 1) none (1/2) 0 2 (1/1000) 0 5 = .
   · intro a _ b _ hab; simp only; linarith
   · intro a _ b _ _; linarith
 
-theorem trialStep_accept (f : ℝ → ℝ) (tol conv x : ℝ) (s : Inner ℝ) (t : ℝ) (h : |f t| < tol) :
-    trialStep f tol conv x s t = .inl (t, f t, { s with evals := t :: s.evals }) := by
-  rcases trialStep_spec f tol conv x s t with ⟨_, h'⟩ | ⟨hn, _⟩
-  · exact h'
-  · exact absurd h hn
-
 /-- **better_end_counterexample.** `f x = x` on `[−10⁻⁶, 9·10⁻⁴]`, tolerance `10⁻³`, one iteration from the lower end:
 the halving trial `4.495·10⁻⁴` is accepted (below the tolerance) although the lower end has residual `10⁻⁶`. So the
 unconditional "no larger than at the better end" is false for the code; `better_end` carries the disjunct. -/
@@ -291,24 +262,6 @@ theorem zero_iterations_counterexample :
 
 section Piecewise
 variable {xs ys : List ℝ}
-
-/-- the linear interpolant between knots `i` and `j` -/
-noncomputable def interp (xs ys : List ℝ) (i j : Nat) (hi : i < xs.length) (hj : j < xs.length) (hyi : i < ys.length)
-    (hyj : j < ys.length) (x : ℝ) : ℝ :=
-  ys[i] + (x - xs[i]) / (xs[j] - xs[i]) * (ys[j] - ys[i])
-
-/-- `Piecewise` once the bracketing pair is known -/
-theorem piecewise_of_brackets {x : ℝ} {i j : Nat} (hb : brackets x xs = .ok (some (i, j)))
-    (hi : i < xs.length) (hj : j < xs.length) (hyi : i < ys.length) (hyj : j < ys.length) :
-    piecewise x xs ys =
-      if x = xs[j] then .val ys[j]
-      else if (ys[i] ≤ ys[j] ∧ ys[j] < interp xs ys i j hi hj hyi hyj x) ∨
-              (ys[j] ≤ ys[i] ∧ interp xs ys i j hi hj hyi hyj x < ys[j]) then .val ys[j]
-      else .val (interp xs ys i j hi hj hyi hyj x) := by
-  unfold piecewise interp
-  rw [hb]
-  simp only [List.getElem?_eq_getElem hi, List.getElem?_eq_getElem hj, List.getElem?_eq_getElem hyi,
-    List.getElem?_eq_getElem hyj, RealNum.feq_eq]
 
 /-- **knots_exact.** For every strictly increasing table of length ≥ 2 (with `ys` at least as long) and every knot `k`,
 `Piecewise xs[k]` returns the table value `ys[k]` exactly. -/
